@@ -78,6 +78,32 @@ Theorem C15_pipeline_in_order : forall W, world_ok W -> forall ps rs, benign W p
 Proof. exact pipeline_in_order. Qed.
 Print Assumptions C15_pipeline_in_order.
 
+(* Any interleaving (ANY schedule of: the client sends a request / the server runs one loop
+   iteration / the client reads one reply; any number of requests in flight): the requests sent so
+   far split, in order, into those served and those still queued; the replies read so far followed
+   by the replies in flight are exactly the expected observations of the served requests in request
+   order; the server is running and holds the in-process state after the served requests. *)
+Theorem C15_any_interleaving : forall W, world_ok W -> forall ps sch,
+  benign W ps (sends_of W sch) ->
+  exists served pending,
+    sends_of W sch = served ++ pending /\
+    Forall2 (encoded W) pending (c2s (snd (run_sched W (init W ps) sch))) /\
+    running (snd (run_sched W (init W ps) sch)) = true /\
+    proj (snd (run_sched W (init W ps) sch)) = inproc_state W ps served /\
+    fst (run_sched W (init W ps) sch) ++
+      map (decode_reply W) (s2c (snd (run_sched W (init W ps) sch))) =
+      map (expected W) (inproc_trace W ps served).
+Proof. exact any_interleaving. Qed.
+Print Assumptions C15_any_interleaving.
+
+(* Hence the k-th reply read always answers the k-th request sent. *)
+Theorem C15_replies_are_a_prefix : forall W, world_ok W -> forall ps sch,
+  benign W ps (sends_of W sch) ->
+  exists rest, map (expected W) (inproc_trace W ps (sends_of W sch)) =
+               fst (run_sched W (init W ps) sch) ++ rest.
+Proof. exact replies_are_a_prefix. Qed.
+Print Assumptions C15_replies_are_a_prefix.
+
 (* Outside the domain nothing is hidden: for EVERY request list the system refines the reference
    [ref_run], in which a request the client cannot serialise raises locally and reaches nobody,
    and 'close' or a BaseException stop the server, after which every call finds the connection
@@ -146,3 +172,16 @@ Example C15_example_escape :
   fst res = [Returned PNone; LocalError; ConnDead; ConnDead] /\
   running (snd res) = false /\ proj (snd res) = 2 /\ s2c (snd res) = [].
 Proof. vm_compute. repeat split; reflexivity. Qed.
+
+(* An interleaving with three requests in flight: two are answered and read, the third is still
+   queued when the schedule stops. *)
+Example C15_example_interleaving :
+  let W := concrete_world ex_table in
+  let send := fun r : pyv => @ASend W r in
+  let sch := [send (ex_req 10 []); send (ex_req 11 []); ARecv; AServe; send (ex_req 12 []);
+              ARecv; AServe; AServe; ARecv; ARecv; ARecv; send (ex_req 13 [])] in
+  fst (run_sched W (init W 0) sch) =
+    [Returned PNone; Returned (PList [PStr true 20; PList [PStr true 21; PStr true 22]]);
+     Raised (true, 31%N)] /\
+  length (c2s (snd (run_sched W (init W 0) sch))) = 1.
+Proof. vm_compute. split; reflexivity. Qed.
